@@ -12,6 +12,7 @@ CONSTANTS
  FixMonotone = FALSE
  FixReadOrder = TRUE
  FixRange = TRUE
+ FixIndexSearch = TRUE
  FixValidate = TRUE
  DevNoWait = FALSE
  DevCommitBeforeIndex = FALSE
